@@ -538,12 +538,18 @@ impl FileMetaStore {
             #[cfg(d_engine_verif)]
             verif_crashpoint::hit("meta:flushed");
             file.sync_all()?;
+            #[cfg(d_engine_verif)]
+            verif_crashpoint::hit("meta:synced");
             drop(file);
             fs::rename(&tmp_path, &hard_state_path)?;
+            #[cfg(d_engine_verif)]
+            verif_crashpoint::hit("meta:renamed");
             // Make the rename itself durable (best effort: not every platform can open a directory).
             if let Ok(dir) = File::open(&self.data_dir) {
                 let _ = dir.sync_all();
             }
+            #[cfg(d_engine_verif)]
+            verif_crashpoint::hit("meta:dirsynced");
         }
 
         Ok(())
